@@ -68,7 +68,7 @@ Inductive ppc :=
 | PSend (n : N)             (* next: to.messages <- b *)
 | PDec (n : N)              (* next: to.messagesRemainingCapacity -= n *)
 | PWait                     (* Shutdown: in select { <-shutdownComplete | <-ticker.C } *)
-| PCrash (n : N).           (* panicked while holding a batch of n spans *)
+| PCrash (n : N).           (* panicked while holding n spans (its batch, and what it had dropped) *)
 
 Inductive wnext := NSelect | NStatus (code : scode).
 
@@ -292,7 +292,7 @@ Inductive lstep (c : cfg) : state -> label -> state -> Prop :=
 | st_emptydone s n d : prod s = PEmpty n d -> msgs s = [] -> closed s = false ->
     lstep c s LEmptyDone (e_emptydone n d s)
 | st_emptynil s n d : prod s = PEmpty n d -> msgs s = [] -> closed s = true ->
-    lstep c s LEmptyNil (set_prod (PCrash n) s)
+    lstep c s LEmptyNil (set_prod (PCrash (n + d)) s)
 | st_suppdump s n d : prod s = PSuppDump n d -> supp_alive s = true ->
     lstep c s LSuppDump (e_suppdump c n d s)
 | st_recheck s n : prod s = PRecheck n -> lstep c s LRecheck (e_recheck n s)
@@ -347,7 +347,7 @@ Definition step_fn (c : cfg) (s : state) (l : label) : option state :=
       end
   | LEmptyNil =>
       match prod s, msgs s with
-      | PEmpty n d, [] => if closed s then Some (set_prod (PCrash n) s) else None
+      | PEmpty n d, [] => if closed s then Some (set_prod (PCrash (n + d)) s) else None
       | _, _ => None
       end
   | LSuppDump =>
@@ -476,12 +476,13 @@ Definition pcall (p : ppc) : N :=
 Definition pdrop_acc (p : ppc) : N := match p with PEmpty _ d | PSuppDump _ d => d | _ => 0 end.
 
 (* the counter has wrapped, or the next decrement will wrap it *)
-Definition wrap_pending (s : state) : bool :=
+Definition wrap_pending (c : cfg) (s : state) : bool :=
   match prod s with
-  | PSuppDump n _ | PRecheck n | PSend n | PDec n => rem s <? n
+  | PSuppDump n _ => negb (fixed c) && (rem s <? n)      (* the repaired code tests again *)
+  | PSend n | PDec n => rem s <? n
   | _ => false
   end.
-Definition wrap_free (s : state) : bool := negb (wrapped s) && negb (wrap_pending s).
+Definition wrap_free (c : cfg) (s : state) : bool := negb (wrapped s) && negb (wrap_pending c s).
 
 (* ------------------------------------------------------------------ observations and trace inclusion
    The harness runs the real TraceObserver with a gated sender: the worker is always parked at a known
@@ -525,10 +526,16 @@ Definition is_tau (l : label) : bool :=
   | LWSupp | LSeeShutdown | LReport | LStatus | LComplete => true
   | _ => false
   end.
-Definition tau_labels : list label := filter is_tau plain_labels.
+(* the labels of plain_labels that are internal (TraceObsProofs.tau_labels_spec: = filter is_tau plain_labels) *)
+Definition tau_labels : list label :=
+  [LChkInit; LChkComplete; LClose; LCloseDrain1; LCloseDrainEnd; LDrainSent; LDrainDone; LEmptyRecv;
+   LEmptyDone; LEmptyNil; LSuppDump; LRecheck; LSuppDrop; LSend; LSendClosed; LDec; LWSupp; LSeeShutdown;
+   LReport; LStatus; LComplete].
 
-Definition tau_succ (c : cfg) (s : state) : list state :=
-  flat_map (fun l => match step_fn c s l with Some s' => [s'] | None => [] end) tau_labels.
+(* successors of s under the labels ls *)
+Definition succ_over (c : cfg) (ls : list label) (s : state) : list state :=
+  flat_map (fun l => match step_fn c s l with Some s' => [s'] | None => [] end) ls.
+Definition tau_succ (c : cfg) (s : state) : list state := succ_over c tau_labels s.
 
 (* -- decidable equality on states, for the visited set -- *)
 Fixpoint listN_eqb (a b : list N) : bool :=
@@ -608,7 +615,7 @@ Fixpoint tau_close (c : cfg) (fuel : nat) (acc : list state) : option (list stat
   end.
 
 Definition fire (c : cfg) (l : label) (X : list state) : list state :=
-  add_new (flat_map (fun s => match step_fn c s l with Some s' => [s'] | None => [] end) X) [].
+  add_new (flat_map (succ_over c [l]) X) [].
 
 Definition wpos_ok (p : wpos) (w : wpc) : bool :=
   match p, w with
@@ -651,26 +658,27 @@ Definition obs_filter (c : cfg) (o : obs) (s : state) : bool :=
   | OWorkerEnd => match work s with WDone => true | _ => false end
   | OWorkerCrash => match work s with WCrash => true | _ => false end
   | OProbe p => probe_ok p s
+  | OShutdownRet _ => is_idle (prod s)
   | _ => true
   end.
 
 Definition TAU_FUEL : nat := 400.
 
 (* OShutdownRet: the select label fires, then closeMessages runs (tau) and the call returns *)
-Definition obs_step (c : cfg) (o : obs) (X : list state) : option (list state) :=
-  match tau_close c TAU_FUEL X with
+Definition is_shutdownret (o : obs) : bool := match o with OShutdownRet _ => true | _ => false end.
+Definition obs_step_f (c : cfg) (fuel : nat) (o : obs) (X : list state) : option (list state) :=
+  match tau_close c fuel X with
   | None => None
   | Some X1 =>
       let X2 := match obs_label o with Some l => fire c l X1 | None => X1 end in
-      match o with
-      | OShutdownRet _ =>
-          match tau_close c TAU_FUEL X2 with
-          | None => None
-          | Some X3 => Some (filter (fun s => is_idle (prod s)) X3)
-          end
-      | _ => Some (filter (obs_filter c o) X2)
-      end
+      if is_shutdownret o
+      then match tau_close c fuel X2 with
+           | None => None
+           | Some X3 => Some (filter (obs_filter c o) X3)
+           end
+      else Some (filter (obs_filter c o) X2)
   end.
+Definition obs_step (c : cfg) : obs -> list state -> option (list state) := obs_step_f c TAU_FUEL.
 
 Inductive verdict := Accept | Reject (k : nat) | OutOfFuel (k : nat).
 
@@ -698,6 +706,7 @@ Record mobs := {
   m_refused : list (N * N);        (* ... those issued when shutdown had already begun *)
   m_received : list (N * N);       (* (id, count) of the batches handed to sender.send, in order *)
   m_dumped : N;                    (* total of Supportability/InfiniteTracing/Span/AgentQueueDumped *)
+  m_exact : bool;                  (* every offered count is below 2^53: the float64 metric values are exact *)
   m_left : N;                      (* spans peeked in the queue just before it was closed *)
   m_queued_end : N;                (* spans peeked in the queue at the end (0 once closed) *)
   m_quiescent : bool;              (* at the end the producer is idle and the worker holds no batch *)
@@ -719,16 +728,17 @@ Definition mon_noblock (o : mobs) : bool :=
 Definition mon_nocrash (o : mobs) : bool :=
   negb (existsb (fun e => match e with OWorkerCrash | OProdCrash => true | _ => false end) (m_log o)).
 (* queued spans <= QueueSize, and the capacity counter within [0, QueueSize], at every probe *)
+Definition probe_bound_ok (q : N) (p : probe) : bool :=
+  (p_rem p <=? q) && (p_nmsgs p <=? q)
+  && match p_queued p with Some l => qsum l <=? q | None => true end.
 Definition mon_bound (o : mobs) : bool :=
-  forallb (fun e => match e with
-                    | OProbe p => (p_rem p <=? m_qsize o) && (p_nmsgs p <=? m_qsize o)
-                                  && match p_queued p with Some q => qsum q <=? m_qsize o | None => true end
-                    | _ => true end) (m_log o).
+  forallb (fun e => match e with OProbe p => probe_bound_ok (m_qsize o) p | _ => true end) (m_log o).
 (* every span handed over is accounted for exactly once *)
 Definition mon_acct (o : mobs) : bool :=
   nodup_ids (m_received o) && forallb (fun p => pair_in p (m_offered o)) (m_received o)
   && forallb (fun p => negb (pair_in p (m_refused o))) (m_received o)
-  && (if m_quiescent o
+  && (if negb (m_exact o) then true
+      else if m_quiescent o
       then sum_counts (m_offered o) =?
            sum_counts (m_received o) + m_dumped o + sum_counts (m_refused o) + m_left o + m_queued_end o
       else sum_counts (m_received o) + m_dumped o + sum_counts (m_refused o) + m_left o + m_queued_end o
